@@ -390,7 +390,7 @@ func c12Run(w *verifrt.World, tier Tier) *RunResult {
 func init() {
 	register(&Check{
 		ID: "C12", Level: "exploration", Run: c12Run,
-		Runs:       [2]int{30000, 600000},
+		Runs:       [2]int{30000, 1200000},
 		MaxSeconds: [2]int{90, 1500},
 		Rule: "one run = 2-6 @unconditionalMatch rules (plus chains) in one phase whose transformation lists are prefixes of a drawn family plus optional tails, over static targets with selectors / exclusions / regex keys that shift positions between rules and (1/3 of runs) targets whose content changes inside the phase (MATCHED_VAR*, RULE, counts, TX), on a request with repeated names and values. " +
 			"Oracle 1 (static targets): values selected = matched data of the same rules without transformations; expected = registered transformation functions applied directly. Oracle 2: same rules with a distinct identity transformation prefixed per rule (no cross-rule cache entry possible). Oracle 3: same result under permuted map orders. " +
